@@ -400,11 +400,29 @@ fn hex_alphabet(r: &mut Rng, chars: usize) -> Vec<Vec<u8>> {
     out
 }
 
+/// the characters a general-purpose number parser would accept or skip (sign, separators, prefixes, whitespace) and the
+/// neighbours of the hex ranges, at EVERY position of an otherwise valid string: a decoder that parses limb- or
+/// byte-sized groups with a library routine accepts some of them at group boundaries only
+fn hex_every_position(r: &mut Rng, chars: usize) -> Vec<Vec<u8>> {
+    let mut out = Vec::new();
+    for &c in b"+-_ xX/:@G`g\0\t" {
+        for pos in 0..chars {
+            let mut s = hex_ok(r, chars);
+            s[pos] = c;
+            out.push(s);
+        }
+    }
+    out
+}
+
 fn hex_fixed<const N: usize>(cx: &mut Cx, n: usize, alphabet: bool) {
     let nb = 8 * N;
     let mut strs = hex_strings(&mut cx.rng, 2 * nb, n);
     if alphabet {
         strs.extend(hex_alphabet(&mut cx.rng, 2 * nb));
+    }
+    if N <= 3 {
+        strs.extend(hex_every_position(&mut cx.rng, 2 * nb));
     }
     for (i, s) in strs.iter().enumerate() {
         let t = st(s);
@@ -776,6 +794,9 @@ fn boxed_hex(cx: &mut Cx, n: usize) {
         if nl == 1 {
             strs.extend(hex_alphabet(&mut cx.rng, 2 * nb));
         }
+        if nl <= 3 {
+            strs.extend(hex_every_position(&mut cx.rng, 2 * nb));
+        }
         for s in &strs {
             let t = st(s);
             cx.call(e_hex("boxed.from_be_hex", s, nb, "be", "none").i("prec", 64 * nl as i64), || match Option::<BoxedUint>::from(BoxedUint::from_be_hex(t, 64 * nl as u32)) {
@@ -888,9 +909,11 @@ macro_rules! alias_events {
         cx.call(e_enc(&form("to_le_bytes"), &v, nb, "le"), || O::ok().b("bytes", &x.to_le_bytes()));
         cx.call(e_enc(&form("Encoding.to_be_bytes"), &v, nb, "be"), || O::ok().b("bytes", Encoding::to_be_bytes(&x).as_ref()));
         cx.call(e_enc(&form("Encoding.to_le_bytes"), &v, nb, "le"), || O::ok().b("bytes", Encoding::to_le_bytes(&x).as_ref()));
-        let (be, le) = (x.to_be_bytes(), x.to_le_bytes());
-        cx.call(e_dec(&form("Encoding.from_be_bytes"), &be, nb, "be"), || oy(&raw(&<vh::cb::$name as Encoding>::from_be_bytes(be))));
-        cx.call(e_dec(&form("Encoding.from_le_bytes"), &le, nb, "le"), || oy(&raw(&<vh::cb::$name as Encoding>::from_le_bytes(le))));
+        // the octet strings are computed here, not by the crate: a broken table entry then shows inside the recorded calls
+        let le: Vec<u8> = v.iter().flat_map(|w| w.to_le_bytes()).collect();
+        let be: Vec<u8> = le.iter().rev().copied().collect();
+        cx.call(e_dec(&form("Encoding.from_be_bytes"), &be, nb, "be"), || { let r = <vh::cb::$name as Encoding>::Repr::try_from(&be[..]).expect("Repr holds BITS / 8 octets"); oy(&raw(&<vh::cb::$name as Encoding>::from_be_bytes(r))) });
+        cx.call(e_dec(&form("Encoding.from_le_bytes"), &le, nb, "le"), || { let r = <vh::cb::$name as Encoding>::Repr::try_from(&le[..]).expect("Repr holds BITS / 8 octets"); oy(&raw(&<vh::cb::$name as Encoding>::from_le_bytes(r))) });
         cx.call(e_dec(&form("from_be_slice"), &be, nb, "be"), || oy(&raw(&<vh::cb::$name>::from_be_slice(&be))));
         cx.call(e_dec(&form("from_le_slice"), &le, nb, "le"), || oy(&raw(&<vh::cb::$name>::from_le_slice(&le))));
     }};
